@@ -158,7 +158,7 @@ pub enum Scenario {
     RoundTrip,
     /// update_paragraph onto prior contents `kind` (0 empty, 1 own fields with other values, 2 own fields interleaved with
     /// foreign fields (and comments on the lossless back-end), 3 every own optional field present, 4 only the later-declared
-    /// half of the present fields after a foreign field, without final newline, 5 every own field twice), back-end
+    /// half of the present fields after a foreign field, without final newline, 5 every own field twice, 6 a paragraph built by to_paragraph() from another value), back-end
     Update(usize, bool),
     MissingMandatory(usize),
     Invalid(usize),
@@ -256,6 +256,11 @@ fn check_update(sp: &ParaSpec, v: &[usize], kind: usize, lossless: bool) -> Vec<
                 prior.push_str(&render_para(&[(f.name, other(f))]));
             }
         }
+        6 => {
+            // the target is the paragraph to_paragraph() builds from the value with every field present (other values)
+            let all: Vec<(&str, &str)> = sp.fields.iter().map(|f| (f.name, other(f))).collect();
+            prior = format!("@built:{}", render_para(&all));
+        }
         5 => {
             // every own field TWICE (a paragraph may repeat a field name), around a foreign field: a field whose value is
             // absent must be gone afterwards - every occurrence of it
@@ -317,8 +322,8 @@ fn check_update(sp: &ParaSpec, v: &[usize], kind: usize, lossless: bool) -> Vec<
         }
     }
     // "all of this is identical for lossy and lossless paragraphs": same fields, order and values after the update
-    // (priors 0, 1, 3, 5 are the same text for both back-ends)
-    if lossless && matches!(kind, 0 | 1 | 3 | 5) {
+    // (priors 0, 1, 3, 5, 6 are the same for both back-ends)
+    if lossless && matches!(kind, 0 | 1 | 3 | 5 | 6) {
         match (sp.update)(&value_text, &prior, false) {
             Ok(lossy_printed) => {
                 let a = lossy_para(&lossy_printed).map(|p| p.all_items()).unwrap_or_default();
@@ -415,7 +420,7 @@ impl Prop for C16 {
         "exploration"
     }
     fn rule(&self, _t: Tier) -> String {
-        "programs: 16 single-field structs (every combination of mandatory/optional x default/renamed key x default/custom serialiser x default/custom deserialiser), one struct with all 16 shapes, and every deriving struct shipped in the workspace; values: per struct every presence/value vector within k deviations (k = 2, thorough 3; full product for the single-field structs) of the all-mandatory and the all-present baselines; scenarios per vector: round trip on both back-ends; for k <= 1 also update_paragraph onto 6 prior contents x 2 back-ends, deletion of each mandatory field, corruption of each field that has an invalid value; non-trivial = all".into()
+        "programs: 16 single-field structs (every combination of mandatory/optional x default/renamed key x default/custom serialiser x default/custom deserialiser), one struct with all 16 shapes, and every deriving struct shipped in the workspace; values: per struct every presence/value vector within k deviations (k = 2, thorough 3; full product for the single-field structs) of the all-mandatory and the all-present baselines; scenarios per vector: round trip on both back-ends; for k <= 1 also update_paragraph onto 7 prior contents x 2 back-ends, deletion of each mandatory field, corruption of each field that has an invalid value; non-trivial = all".into()
     }
     fn bounds(&self, t: Tier) -> Value {
         json!({"structs": all_specs().iter().map(|s| json!({"id": s.id, "fields": s.fields.len()})).collect::<Vec<_>>(), "k": t.pick(2, 3)})
@@ -453,7 +458,7 @@ impl Prop for C16 {
                 let devs = dv.iter().filter(|d| **d != 0).count();
                 f(&C16Case { spec: sp.id.to_string(), v: v.clone(), scenario: Scenario::RoundTrip });
                 if devs <= 1 {
-                    for kind in 0..6 {
+                    for kind in 0..7 {
                         for lossless in [false, true] {
                             f(&C16Case { spec: sp.id.to_string(), v: v.clone(), scenario: Scenario::Update(kind, lossless) });
                         }
